@@ -265,7 +265,8 @@ def run(ctx):
     beh, nbeh = ctx.tlc_generate("MC_BlobStoreGen", cfg=gen_cfg, timeout=1500, jvm="-Xmx8g")
     if nbeh == 0:
         raise vlib.ToolError("MC_BlobStoreGen produced no behaviours")
-    s2 = ctx.harness(BIN, "replay", "b2", extra={"in": beh, "sample": 4000 if ctx.thorough else 250, "isolate": ISOLATE})
+    s2 = ctx.harness(BIN, "replay", "b2", extra={"in": beh, "sample": 4000 if ctx.thorough else 250, "isolate": ISOLATE},
+                     timeout=2400)
     # --- B1: seeded random histories + bulk builds
     s1 = ctx.harness(BIN, "drive", "b1", extra={"isolate": ISOLATE})
     b1files = sorted(glob.glob(os.path.join(s1["_out"], "*.ndjson")))
